@@ -885,7 +885,17 @@ pub const ALL_VRS: &[&[u8; 2]] = &[
     b"AE", b"AS", b"AT", b"CS", b"DA", b"DS", b"DT", b"FL", b"FD", b"IS", b"LO", b"LT", b"OB", b"OD", b"OF", b"OL", b"OV", b"OW", b"PN", b"SH", b"SL", b"SS", b"ST", b"SV", b"TM", b"UC", b"UI", b"UL", b"UN", b"UR", b"US", b"UT", b"UV",
 ];
 
-fn one_text(t: &mut Tape, vr: &[u8; 2], latin1: bool) -> Vec<u8> {
+fn one_text(t: &mut Tape, vr: &[u8; 2], cs: u8) -> Vec<u8> {
+    if cs == 2 && matches!(vr, b"LO" | b"PN" | b"SH" | b"ST" | b"LT" | b"UT" | b"UC") && t.chance(1, 2) {
+        // UTF-8 (ISO_IR 192): 2- and 3-byte characters, odd and even byte counts
+        let xs: [&str; 6] = ["Müller", "Zoë", "Simões^João", "É", "日本語", "山田^太郎=やまだ^たろう"];
+        let mut out = xs[t.below(6) as usize].as_bytes().to_vec();
+        if vr != b"PN" {
+            out.retain(|c| *c != b'^' && *c != b'=');
+        }
+        return out;
+    }
+    let latin1 = cs == 1;
     if latin1 && matches!(vr, b"LO" | b"PN" | b"SH" | b"ST" | b"LT" | b"UT" | b"UC") && t.chance(1, 2) {
         // ISO 8859-1 bytes: odd and even counts of non-ASCII characters
         let xs: [&[u8]; 5] = [b"M\xFCller", b"Zo\xEB", b"Sim\xF5es^Jo\xE3o", b"\xC9", b"na\xEFve caf\xE9"];
@@ -916,7 +926,7 @@ fn one_text(t: &mut Tape, vr: &[u8; 2], latin1: bool) -> Vec<u8> {
     }
 }
 
-fn gen_prim(t: &mut Tape, vr: &[u8; 2], multi_ok: bool, latin1: bool) -> Prim {
+fn gen_prim(t: &mut Tape, vr: &[u8; 2], multi_ok: bool, cs: u8) -> Prim {
     // number of values: 0 (empty), 1, or several
     let n = match t.weighted(&[5, 1, if multi_ok { 3 } else { 0 }]) {
         0 => 1,
@@ -960,7 +970,7 @@ fn gen_prim(t: &mut Tape, vr: &[u8; 2], multi_ok: bool, latin1: bool) -> Prim {
                 if i > 0 {
                     out.push(b'\\');
                 }
-                out.extend_from_slice(&one_text(t, vr, latin1));
+                out.extend_from_slice(&one_text(t, vr, cs));
             }
             Prim::Text(out)
         }
@@ -980,6 +990,20 @@ pub struct GenCfg {
     /// declare Specific Character Set ISO_IR 100 and use Latin-1 text in
     /// the VRs that follow the declared character set
     pub latin1: bool,
+    /// declare Specific Character Set ISO_IR 192 and use UTF-8 text (takes precedence over `latin1`)
+    pub utf8: bool,
+}
+
+impl GenCfg {
+    fn cs(&self) -> u8 {
+        if self.utf8 {
+            2
+        } else if self.latin1 {
+            1
+        } else {
+            0
+        }
+    }
 }
 
 impl Default for GenCfg {
@@ -991,6 +1015,7 @@ impl Default for GenCfg {
             encapsulated: true,
             all_undefined: false,
             latin1: false,
+            utf8: false,
         }
     }
 }
@@ -1017,7 +1042,7 @@ fn gen_level(t: &mut Tape, depth: u32, cfg: &GenCfg, top: bool) -> Vec<Elem> {
                 els.push(Elem {
                     tag,
                     vr: *e.2,
-                    val: Val::Prim(gen_prim(t, e.2, e.3, cfg.latin1)),
+                    val: Val::Prim(gen_prim(t, e.2, e.3, cfg.cs())),
                 });
             }
             1 => {
@@ -1073,7 +1098,7 @@ fn gen_level(t: &mut Tape, depth: u32, cfg: &GenCfg, top: bool) -> Vec<Elem> {
                     els.push(Elem {
                         tag,
                         vr: *vr,
-                        val: Val::Prim(gen_prim(t, vr, true, cfg.latin1)),
+                        val: Val::Prim(gen_prim(t, vr, true, cfg.cs())),
                     });
                 }
             }
@@ -1088,7 +1113,7 @@ fn gen_level(t: &mut Tape, depth: u32, cfg: &GenCfg, top: bool) -> Vec<Elem> {
                 els.push(Elem {
                     tag,
                     vr: *vr,
-                    val: Val::Prim(gen_prim(t, vr, true, cfg.latin1)),
+                    val: Val::Prim(gen_prim(t, vr, true, cfg.cs())),
                 });
             }
         }
@@ -1121,9 +1146,9 @@ fn gen_level(t: &mut Tape, depth: u32, cfg: &GenCfg, top: bool) -> Vec<Elem> {
             };
             Val::Frags { bot, frags }
         } else if t.chance(1, 2) {
-            Val::Prim(gen_prim(t, b"OW", false, false))
+            Val::Prim(gen_prim(t, b"OW", false, 0))
         } else {
-            Val::Prim(gen_prim(t, b"OB", false, false))
+            Val::Prim(gen_prim(t, b"OB", false, 0))
         };
         let vr = match &val {
             Val::Prim(Prim::U16(_)) => *b"OW",
@@ -1135,12 +1160,12 @@ fn gen_level(t: &mut Tape, depth: u32, cfg: &GenCfg, top: bool) -> Vec<Elem> {
             val,
         });
     }
-    if top && cfg.latin1 {
+    if top && cfg.cs() != 0 {
         els.retain(|e| e.tag != (0x0008, 0x0005));
         els.push(Elem {
             tag: (0x0008, 0x0005),
             vr: *b"CS",
-            val: Val::Prim(Prim::Text(b"ISO_IR 100".to_vec())),
+            val: Val::Prim(Prim::Text(if cfg.cs() == 2 { b"ISO_IR 192".to_vec() } else { b"ISO_IR 100".to_vec() })),
         });
     }
     els.sort_by_key(|e| e.tag);
